@@ -6,4 +6,19 @@ UNITS = [u for u in compiled.UNITS + graph_api.UNITS if "C08" in u.props]
 
 
 def check(tier, seed):
-    return check_property("C08", UNITS, tier, seed)
+    from pyvc import bounded
+    n = 12 if tier == "quick" else 96
+    res = bounded.run_native("c08_buffers.py", ["--n", str(n), "--seed", str(seed)])
+    lines, ev, err = bounded.report("C08", "automatic buffer sizes vs replayed schedule", res, "c08_buffers.py")
+    extra = dict(bounded=[dict(ev, bound=f"{n} random 3-node graphs (rates 1..20 Hz, windows 1..4, trainable / jittery delays, 3 supergraph modes x prune, 1-2 episodes): "
+                                          "Timings.get_buffer_sizes of the real pipeline checked against the executable contract 'every scheduled read finds its payload'")],
+                 assumptions=["Timings.get_buffer_sizes (numpy masked arrays) is outside PyVC's reach: covered only by the bounded stand-in above (instance validation, not a proof)"])
+    code = check_property("C08", UNITS, tier, seed, extra=extra)
+    if lines:
+        for l in lines:
+            print(l)
+        return 1
+    if err and code == 0:
+        print(f"ERROR property=C08 bounded stand-in failed to run: {err[-300:]}")
+        return 3
+    return code
